@@ -94,6 +94,9 @@ func (t *Trace) Locked(f func() E) {
 	t.mu.Unlock()
 }
 
+// Flush makes everything recorded so far durable (call it before an operation that may never return).
+func (t *Trace) Flush() { t.mu.Lock(); t.w.Flush(); t.mu.Unlock() }
+
 func (t *Trace) Count() int { t.mu.Lock(); defer t.mu.Unlock(); return t.n }
 
 func (t *Trace) Close() {
